@@ -294,6 +294,118 @@ def run_history(binary, spec, workdir, keep_on_failure=True):
     return dict(fails=fails, evaluations=evals, changed=changed, success=success, wall=time.time() - t0)
 
 
+# ---------------------------------------------------------------------------------------------------
+# random refresh SEQUENCES ("kr"): 3-4 steps, each a change of the files followed by a refresh that names what changed
+# ---------------------------------------------------------------------------------------------------
+STEP_KINDS = ("trips", "scen2", "scen2_gone", "scen2_back", "trips+scen2", "newline")
+# the cache names a step may be refreshed with (the handler reloads in the order given); only names that cover what changed,
+# and never an upstream collection alone (DESIGN 0.4)
+STEP_NAMES = {"trips": ["schedules", "all", "scenarios,schedules", "schedules,scenarios"],
+              "scen2": ["scenarios", "scenarios,schedules", "schedules,scenarios", "all"],
+              "scen2_gone": ["scenarios", "schedules,scenarios", "all"],
+              "scen2_back": ["scenarios", "scenarios,schedules", "schedules,scenarios", "all"],
+              "trips+scen2": ["scenarios,schedules", "schedules,scenarios", "all"],
+              "newline": ["all"]}
+
+
+def random_spec(seed, tier, index):
+    rng = gen.Rng((seed * 7919 + 151) * 1000 + index)
+    prof = dict(gen.PROFILES[("opt", "wide", "mixedwait")[index % 3]], pempty=0.02)
+    A = gen.gen_dataset(rng.fork(), prof)
+    cur, steps, gone = A, [], False
+    for k in range(rng.choice([3, 3, 4])):
+        kinds = [x for x in STEP_KINDS if (x == "scen2_back") == gone or x in ("trips", "newline")]
+        kinds = [x for x in kinds if not (gone and x in ("scen2", "scen2_gone", "trips+scen2"))]
+        kind = rng.choice(kinds)
+        nxt = copy.deepcopy(cur)
+        if kind in ("trips", "trips+scen2"):
+            nxt = modify(rng.fork(), cur, scen_too=False)
+        if kind == "newline":
+            nxt = modify(rng.fork(), cur, scen_too=False, new_line=True)
+        if kind in ("scen2", "trips+scen2", "scen2_back"):
+            ref = [ls for (sid, ls) in A.scens if sid == 2][0]
+            old2 = [ls for (sid, ls) in cur.scens if sid == 2]
+            was = old2[0][0] if old2 else ref[0]
+            new2 = rng.choice([x for x in ([1], [2], [1, 2], [2, 2, 2]) if sorted(set(x)) != sorted(set(was))])
+            others = [sc for sc in nxt.scens if sc[0] != 2]
+            nxt.scens = sorted(others + [(2, [new2] + [list(x) for x in ref[1:]])], key=lambda sc: sc[0])
+            gone = False
+        if kind == "scen2_gone":
+            nxt.scens = [sc for sc in nxt.scens if sc[0] != 2]
+            gone = True
+        steps.append(dict(kind=kind, names=rng.choice(STEP_NAMES[kind]), ds=nxt))
+        cur = nxt
+    # requests: the usual set on A plus, for every step, requests on scenario 2 planned on the trips its definition then admits
+    reqs = make_requests(rng.fork(), A, prof)
+    for st in steps:
+        d2 = [ls for (sid, ls) in st["ds"].scens if sid == 2]
+        if not d2:
+            continue
+        sub = copy.deepcopy(st["ds"])
+        sub.trips = [t for t in sub.trips if t[2] in d2[0][0]] or sub.trips
+        for (q, acc, egr) in l3._gen_queries(gen, rng.fork(), sub, prof, 2):
+            q = dict(q); q["scen"] = 2
+            reqs.append(dict(kind="route", path=l3.route_qs(q, False), acc=acc, egr=egr, scen=2, fwd=q["fwd"]))
+    return dict(index=index, kind="kr", cache_all=index % 2 == 1, A=A, steps=steps, requests=reqs)
+
+
+def run_random_history(binary, spec, workdir):
+    t0 = time.time()
+    reqs, A, cache_all = spec["requests"], spec["A"], spec["cache_all"]
+    cache = os.path.join(workdir, "cache")
+    shutil.rmtree(workdir, ignore_errors=True)
+    os.makedirs(cache)
+    base = dict(level="L3 random refresh sequence on the real binary", seed=spec.get("seed"), tier=spec.get("tier"), history=spec["index"], kind="kr",
+                cache_all=cache_all, dataset_A=A.text(), steps=[dict(kind=st["kind"], update="/updateCache?names=" + st["names"], dataset=st["ds"].text()) for st in spec["steps"]],
+                binary=binary)
+    fails, evals, changed, success = [], 0, 0, 0
+    stub = l3.OsrmStub()
+    old = fresh = None
+
+    def fail(why, **kw):
+        fails.append((why, dict(base, why=why, update=kw.pop("update", None), **kw)))
+    try:
+        l3.write_cache(A, cache)
+        old = l3.Server(binary, cache, stub.port, threads=1, cache_all=cache_all)
+        prev = ask_all(old, stub, reqs)
+        for k, st in enumerate(spec["steps"]):
+            l3.write_cache(st["ds"], cache)
+            ok, reply = update(old, st["names"])
+            upd = "/updateCache?names=" + st["names"]
+            if not ok:
+                fail("the reply of %s is not the success object" % upd, phase="step %d (%s)" % (k + 1, st["kind"]), update=upd, update_reply=reply)
+            if not old.alive():
+                fail("the refreshed server died", phase="step %d (%s)" % (k + 1, st["kind"]), update=upd, exit_status=old.exit_status(), log=old.crash_report())
+                break
+            a1 = ask_all(old, stub, reqs)
+            fresh = l3.Server(binary, cache, stub.port, threads=1, cache_all=cache_all)
+            f1 = ask_all(fresh, stub, reqs)
+            fresh.stop(); fresh = None
+            for i, r in enumerate(reqs):
+                evals += 1
+                changed += prev[i] != f1[i]
+                success += " ok " in f1[i] or "summary success" in f1[i]
+                if a1[i] != f1[i]:
+                    fail("after step %d (%s, %s) the server answers differently from a server newly started on the same files" % (k + 1, st["kind"], upd),
+                         phase="step %d (%s)" % (k + 1, st["kind"]), update=upd, request_number=i, request=r, answer_before_refresh=prev[i],
+                         answer_after_refresh=a1[i], answer_of_fresh_server=f1[i], update_reply=reply, stale=(a1[i] == prev[i]))
+            if not old.alive():
+                fail("the refreshed server died", phase="step %d (%s)" % (k + 1, st["kind"]), update=upd, exit_status=old.exit_status(), log=old.crash_report())
+                break
+            prev = a1
+    except Exception as e:
+        import traceback
+        fail("history could not be run: %s: %s" % (type(e).__name__, str(e)[:600]), phase="harness", traceback=traceback.format_exc()[-1500:])
+    finally:
+        for sv in (old, fresh):
+            if sv is not None:
+                sv.stop()
+        stub.close()
+        if not fails:
+            shutil.rmtree(workdir, ignore_errors=True)
+    return dict(fails=fails, evaluations=evals, changed=changed, success=success, wall=time.time() - t0)
+
+
 def run(binary, seed, tier, only=None, workers=None):
     """All histories of the tier (or only the history number `only`)."""
     t0 = time.time()
@@ -303,13 +415,18 @@ def run(binary, seed, tier, only=None, workers=None):
         shutil.rmtree(root, ignore_errors=True)
     os.makedirs(root, exist_ok=True)
     specs = []
-    for i in (range(n) if only is None else [only]):
-        s = history_spec(seed, tier, i)
+    nr = 8 if tier == "quick" else 60
+    idxs = (list(range(n)) + [1000 + j for j in range(nr)]) if only is None else [only]
+    for i in idxs:
+        s = random_spec(seed, tier, i - 1000) if i >= 1000 else history_spec(seed, tier, i)
         s["seed"], s["tier"] = seed, tier
+        if i >= 1000:
+            s["index"], s["omit"] = i, None
         specs.append(s)
     workers = workers or (4 if tier == "quick" else 8)
+    runner = lambda s: (run_random_history if s["kind"] == "kr" else run_history)(binary, s, os.path.join(root, "h%04d" % s["index"]))
     with ThreadPoolExecutor(max_workers=workers) as ex:
-        results = list(ex.map(lambda s: run_history(binary, s, os.path.join(root, "h%03d" % s["index"])), specs))
+        results = list(ex.map(runner, specs))
     fails, kinds, modes, omits = [], {}, {}, {}
     for s, r in zip(specs, results):
         fails += r["fails"]
